@@ -100,7 +100,8 @@ def classify(e):
              ("Index of coupons must match", "ECouponIdx"), ("Index of bidoffer must match", "EBidofferIdx"),
              ("Cannot transact at custom prices", "ECustomNoBidoffer"),
              ("Cannot have fixed income strategy child", "EFiChild"), ("already exists", "EDupChild"),
-             ("duplicate column names", "EDupColumn"), ("Expecting weights (that sum to 1)", "EValue"),
+             ("duplicate column names", "EDupColumn"), ("Expecting weights (that sum to 1)", "EValue"), ("not set on target", "EValue"), ("risk not set up", "EValue"),
+             ("Singular matrix", "ELinAlg"),
              ("invalid limit -> 1 / limit", "EValue"), ("Potentially infinite loop", "ESizingLoop"),
              ("root search for quantity is stuck", "ESizingStuck"), ("has gotten bigger", "ESizingDiverged")]
     for pat, name in table:
@@ -135,6 +136,8 @@ def dump_node(out, path, n, dts):
             pb(n._needupdate), pf(n._outlay), pf(n._bidoffer), pf(n._bidoffer_paid), pf(n._capital),
             pf(getattr(n, "_coupon", 0.0)), pf(getattr(n, "_holding_cost", 0.0))))
         out.append("%s flags %s %s" % (path, pb(n.integer_positions), pb(n._bidoffer_set)))
+        if getattr(n, "risk", None):
+            out.append("%s risk %s" % (path, " ".join("%d %s" % (int(k[1:]), pf(v)) for k, v in n.risk.items())))
         if n._prices_set:
             out.append("%s priced T" % path)
             out.append("%s h_values %s" % (path, pl(n._values.values)))
@@ -157,6 +160,11 @@ def dump_node(out, path, n, dts):
         pb(n.bankrupt)))
     out.append("%s flags %s %s %s %s" % (path, pb(n.integer_positions), pb(n._bidoffer_set), pb(n.fixed_income),
                                        pb(n._paper_trade)))
+    if getattr(n, "risk", None):
+        out.append("%s risk %s" % (path, " ".join("%d %s" % (int(k[1:]), pf(v)) for k, v in n.risk.items())))
+    if hasattr(n, "risks"):
+        for m in n.risks.columns:
+            out.append("%s risks.%d %s" % (path, int(m[1:]), pl(n.risks[m].values)))
     out.append("%s kids %s" % (path, " ".join(str(id_of(c.name)) for c in n._childrenv)))
     out.append("%s lazy %s" % (path, " ".join(str(id_of(k)) for k in n._lazy_children)))
     strat_names = set(n._strat_children)
